@@ -317,11 +317,11 @@ def _crossing_inputs(rng, nmol, n, nov):
     return ref, tgt, hold, prev, active, nd0, nd1
 
 
-def _crossing_call(idx, n, ref, tgt, hold, prev, active, nd0, nd1):
+def _crossing_call(idx, n, ref, tgt, hold, prev, active, nd0, nd1, dyn=None):
     import torch
 
     idx = list(idx)
-    dyn = _dyn(len(idx), n)
+    dyn = dyn if dyn is not None else _dyn(len(idx), n)
     dyn._active_states = torch.as_tensor(active[idx], dtype=torch.long)
     dyn.post_hop_holdoff = torch.as_tensor(hold[idx], dtype=torch.long)
     dyn.prev_state = torch.as_tensor(prev[idx], dtype=torch.long)
@@ -337,9 +337,15 @@ def probe_crossing_isolation(inp: Dict[str, Any]) -> Dict[str, Any]:
     rng = np.random.default_rng(inp["seed"])
     nmol, n, nov = inp["nmol"], inp["nstates"], inp["nstates"] + 3
     bad, kinds, nswaps = [], set(), 0
+    veteran = _dyn(nmol, n)      # ONE dynamics object used for every trial (as a run does step after step): its scratch buffers carry over
     for trial in range(inp.get("trials", 12)):
         args = _crossing_inputs(rng, nmol, n, nov)
         full = _crossing_call(range(nmol), n, *args)
+        old = _crossing_call(range(nmol), n, *args, dyn=veteran)
+        for what, a, b in (("swap map", old[0], full[0]), ("old coupling", old[1], full[1]), ("new coupling", old[2], full[2]), ("hold-off", old[3], full[3])):
+            if not np.array_equal(a, b):
+                bad.append(f"trial {trial}: {what} computed by a dynamics object that has already processed {trial} steps differs from a fresh object")
+                kinds.add("crossing_history")
         for m in range(nmol):
             one = _crossing_call([m], n, *args)
             nswaps += int((one[0] >= 0).any())
@@ -356,7 +362,84 @@ def probe_crossing_isolation(inp: Dict[str, Any]) -> Dict[str, Any]:
             "fields": {"kinds": sorted(kinds), "nmol": nmol}, "nontrivial": nswaps > 0}
 
 
-PROBES = {"crossing_isolation": probe_crossing_isolation, "norm": probe_norm, "hop_probabilities": probe_hop_probabilities, "rescale": probe_rescale, "relabel": probe_relabel, "isolation": probe_isolation}
+def probe_hop_batch(inp: Dict[str, Any]) -> Dict[str, Any]:
+    """the REAL orchestration of a hop step (`_after_electronic_update`) on a batch in which only SOME trajectories hop (so the position among the
+    hoppers differs from the batch index) and every trajectory has its own energies: each accepted hop conserves that trajectory's total energy with
+    its OWN gap, a rejected hop is genuinely frustrated for its own gap and leaves the velocities untouched, non-hopping trajectories are untouched"""
+    import types
+
+    import torch
+
+    import seqm.MolecularDynamics as MD
+
+    rng = np.random.default_rng(inp["seed"])
+    nmol, n, nat = inp["nmol"], inp["nstates"], inp.get("natom", 3)
+    KES = MD.CONSTANTS.KINETIC_ENERGY_SCALE
+    bad, kinds, nacc, nfr = [], set(), 0, 0
+    for trial in range(inp.get("trials", 10)):
+        dyn = _dyn(nmol, n)
+        dyn._trivial_crossing_mask = None
+        dyn.step_offset = 0
+        dyn._decohere_on_hop = bool(inp.get("decoherence", False))
+        dyn._amp_phase = _rand_amp(rng, nmol, n)
+        active = rng.integers(0, n, size=nmol)
+        dyn._active_states = torch.tensor(active, dtype=torch.long)
+        E = np.sort(rng.uniform(0.0, 3.0, size=(nmol, n)), axis=1) + rng.uniform(0, 1, size=(nmol, 1))
+        target = np.array([int(rng.choice([t for t in range(n) if t != active[m]])) for m in range(nmol)])
+        hops = rng.uniform(size=nmol) < 0.55
+        hops[0] = False if nmol > 1 else hops[0]          # a non-hopper in front: position among hoppers != batch index
+        tg = np.where(hops, target, -1)
+        dyn._attempt_hop = lambda: torch.tensor(tg, dtype=torch.long)
+        mass = rng.uniform(1.0, 16.0, size=(nmol, nat, 1))
+        v0 = rng.normal(size=(nmol, nat, 3)) * 0.01
+        mol = types.SimpleNamespace(coordinates=torch.zeros(nmol, nat, 3), velocities=torch.tensor(v0.copy()), mass_inverse=torch.tensor(1.0 / mass), mass=torch.tensor(mass),
+                                    Etot=torch.zeros(nmol), force=torch.zeros(nmol, nat, 3), acc=torch.zeros(nmol, nat, 3), active_state=None)
+        nacs = {}
+
+        def nacr(molecule, pairs):
+            out = {}
+            for (s1, s2) in pairs:
+                out[(s1 - 1, s2 - 1)] = torch.tensor(rng.normal(size=(nmol, nat, 3)) * float(10 ** rng.uniform(-1, 1)))
+            nacs.update(out)
+            return out
+        dyn._compute_NACR_for_hop = nacr
+        dyn._recompute_active_force = lambda molecule: None
+        dyn._after_electronic_update(mol, torch.tensor(E), step=0)
+        v1 = mol.velocities.numpy()
+        new_active = dyn._active_states.numpy()
+        for m in range(nmol):
+            ke0 = float((0.5 * mass[m] * v0[m] ** 2).sum()) * KES
+            ke1 = float((0.5 * mass[m] * v1[m] ** 2).sum()) * KES
+            if not hops[m]:
+                if not np.array_equal(v0[m], v1[m]) or new_active[m] != active[m]:
+                    bad.append(f"trial {trial}: trajectory {m} did not hop but its velocities/state changed"); kinds.add("hop_isolation")
+                continue
+            dE = float(E[m, target[m]] - E[m, active[m]])
+            key = (min(active[m], target[m]), max(active[m], target[m]))
+            d = nacs[key][m].numpy() * (1.0 if active[m] < target[m] else -1.0)
+            d2m = float(((1.0 / mass[m][:, 0]) * (d ** 2).sum(1)).sum())
+            vd = float((v0[m] * d).sum())
+            rad = vd * vd - 2.0 * (dE / KES) * d2m
+            if new_active[m] == target[m]:
+                nacc += 1
+                if abs((ke1 - ke0) + dE) > 1e-9 * max(1.0, abs(dE)):
+                    bad.append(f"trial {trial}: accepted hop of trajectory {m} (gap {dE:+.4f} eV) changes the kinetic energy by {ke1 - ke0:+.6f} eV: total energy off by {(ke1 - ke0) + dE:+.3e} eV (hoppers {np.nonzero(hops)[0].tolist()})")
+                    kinds.add("hop_energy")
+                if rad <= 0:
+                    bad.append(f"trial {trial}: trajectory {m} hopped although its own gap makes the hop frustrated"); kinds.add("hop_decision")
+            else:
+                nfr += 1
+                if not np.array_equal(v0[m], v1[m]):
+                    bad.append(f"trial {trial}: frustrated hop of trajectory {m} changed its velocities"); kinds.add("hop_frustrated")
+                if rad > 1e-14 and d2m > 1e-12:
+                    bad.append(f"trial {trial}: hop of trajectory {m} rejected as frustrated although its own gap {dE:+.4f} eV allows it (discriminant {rad:.3e})"); kinds.add("hop_decision")
+        if bad:
+            break
+    return {"ok": not bad, "observed": bad[:5] or [f"{nacc} accepted, {nfr} frustrated hops"], "expected": "per-trajectory energy conservation and decisions in a partially hopping batch", "predicate": "",
+            "fields": {"kinds": sorted(kinds), "nmol": nmol}, "nontrivial": nacc > 0 and nfr >= 0}
+
+
+PROBES = {"hop_batch": probe_hop_batch, "crossing_isolation": probe_crossing_isolation, "norm": probe_norm, "hop_probabilities": probe_hop_probabilities, "rescale": probe_rescale, "relabel": probe_relabel, "isolation": probe_isolation}
 
 
 def gen_cases(ctx: Ctx):
@@ -379,6 +462,9 @@ def gen_cases(ctx: Ctx):
     cases.append(("relabel", {"seed": 3, "swap_to": [2, -1, 0], "active": 1}))
     cases.append(("relabel", {"seed": 4, "swap_to": [1, 0, 1], "active": 0}))   # 3-cycle artefact of the assignment step (not an involution)
     cases.append(("relabel", {"seed": 5, "swap_to": [1, 2, 0], "active": 0}))   # a true 3-cycle (bijection)
+    for i in range(6 if ctx.thorough else 2):
+        cases.append(("hop_batch", {"seed": int(rng.integers(0, 10**6)), "nmol": int(rng.integers(2, 6)), "nstates": int(rng.integers(2, 6)), "natom": int(rng.integers(2, 5)), "trials": 20 if ctx.thorough else 10,
+                                    "decoherence": bool(i % 2)}))
     for i in range(6 if ctx.thorough else 2):
         cases.append(("crossing_isolation", {"seed": int(rng.integers(0, 10**6)), "nmol": int(rng.integers(3, 6)), "nstates": int(rng.integers(3, 7)), "trials": 60 if ctx.thorough else 40}))
     for i in range(4 if ctx.thorough else 2):
